@@ -152,7 +152,8 @@ def run_shard(sh, ctx):
 		empty_i = subsets.index(frozenset())
 		for cname, cont in (('list', list(arrs[w0])), ('SignatureList', SignatureList(list(arrs[w0]), None, dtype=np.dtype(w0))), ('SignatureArray', SignatureArray(arrs[w0], None, dtype=np.dtype(w0))),
 		                    ('mixed-width list', list(mixed)), ('mixed-width SignatureList', SignatureList(list(mixed), None)),
-		                    ('one-reference SignatureArrays', None), ('chunks of two', None), ('matrix with rotated and shuffled ref_indices', None), ('matrix into a Fortran-ordered out', None), ('rows into columns of a matrix', None), ('pairwise, empty signatures last', None), ('pairwise on a list, empty signatures first', None)):
+		                    ('one-reference SignatureArrays', None), ('chunks of two', None), ('matrix with rotated and shuffled ref_indices', None), ('matrix into a Fortran-ordered out', None), ('rows into columns of a matrix', None), ('pairwise, empty signatures last', None), ('pairwise on a list, empty signatures first', None),
+		                    ('two slices of one open signature file', None)):
 			Tb = np.empty((n, n), dtype='f8')
 			if cname == 'one-reference SignatureArrays':
 				# every reference alone in its own concatenated array (a database / chunk that holds a single genome)
@@ -181,6 +182,25 @@ def run_shard(sh, ctx):
 						Tb[:, j] = Mx[:, pos]
 					if not np.array_equal(Tb, base):
 						break
+			elif cname == 'two slices of one open signature file':
+				# the collection stored in a signature file; queries and references are two slices of the SAME open file, both obtained
+				# before the call and alive during it (first half against second half, the other way round, and each half against a
+				# second slice of itself)
+				from gambit.sigs.base import AnnotatedSignatures, SignaturesMeta, dump_signatures, load_signatures
+				from gambit.kmers import KmerSpec
+				ks_ = KmerSpec({1: 4, 2: 8, 4: 16, 8: 32}[np.dtype(w0).itemsize], 'AT')
+				dtf = np.dtype(w0) if np.dtype(w0).kind == 'u' else np.dtype('u' + str(np.dtype(w0).itemsize))
+				pth = ctx.workdir / f'tbl_{sh["name"]}.gs'
+				dump_signatures(str(pth), AnnotatedSignatures(SignatureArray([a_.astype(dtf) for a_ in arrs[w0]], ks_, dtype=dtf), [f's{j}' for j in range(n)], SignaturesMeta(id='t')))
+				with load_signatures(str(pth)) as f_:
+					for h in (n // 2, n // 3):
+						lo1, hi1, lo2, hi2 = f_[0:h], f_[h:n], f_[0:h], f_[h:n]
+						Tb[0:h, h:n] = gm.jaccarddist_matrix(lo1, hi1)
+						Tb[h:n, 0:h] = gm.jaccarddist_matrix(hi2, lo2, chunksize=7)
+						Tb[0:h, 0:h] = gm.jaccarddist_matrix(lo1, lo2)
+						Tb[h:n, h:n] = gm.jaccarddist_matrix(hi2, hi1)
+						if not np.array_equal(Tb, base):
+							break
 			elif cname == 'chunks of two':
 				# references ordered so that the empty set and its copy form a chunk of their own
 				order = [empty_i, empty_i] + [j for j in range(n) if j != empty_i]
@@ -311,7 +331,7 @@ def run_shard(sh, ctx):
 
 def finalize(merged, tier, seed, inconclusive):
 	c = merged['counters']
-	for n in ['triples_checked', 'add_common_element_checks', 'width_invariance_checks', 'class:union', 'class:near', 'width_combo:u2/u8', 'width_combo:u8/u2', 'mixed_width_pairs_with_unrepresentable_values', 'bulk_tables:list', 'bulk_tables:SignatureArray', 'bulk_tables:one-reference SignatureArrays', 'bulk_tables:chunks of two', 'bulk_tables:matrix with rotated and shuffled ref_indices', 'bulk_tables:pairwise, empty signatures last']:
+	for n in ['triples_checked', 'add_common_element_checks', 'width_invariance_checks', 'class:union', 'class:near', 'width_combo:u2/u8', 'width_combo:u8/u2', 'mixed_width_pairs_with_unrepresentable_values', 'bulk_tables:list', 'bulk_tables:SignatureArray', 'bulk_tables:one-reference SignatureArrays', 'bulk_tables:chunks of two', 'bulk_tables:matrix with rotated and shuffled ref_indices', 'bulk_tables:pairwise, empty signatures last', 'bulk_tables:two slices of one open signature file']:
 		if c.get(n, 0) == 0:
 			inconclusive.append(f'class never observed: {n}')
 	merged['notes'].setdefault('sanitizer_stage', {})
